@@ -434,9 +434,14 @@ func genImportCase(rt *rapid.T) ImportCase {
 	}
 	pick := func(xs []string) string { return xs[k(len(xs)-1)] }
 	nfiles := 5 - k(3) // rapid favours small draws: mostly 4–5 files
-	family := 1 + k(5) // 1 diamond; 2 repeated import; 3 cycle; otherwise random edges
-	if family > 3 {
+	family := 1 + k(6) // 1 diamond; 2 repeated import; 3 cycle; 4 deep conditional chain with conditional siblings; otherwise random edges
+	if family > 4 {
 		family = 0
+	}
+	chainDepth := 0
+	if family == 4 {
+		chainDepth = 2 + k(5) // 2..7 nested conditional imports above the file with the sibling imports
+		nfiles = chainDepth + 3
 	}
 	files := map[string]string{}
 	marker := 100
@@ -475,6 +480,12 @@ func genImportCase(rt *rapid.T) ImportCase {
 			case 2:
 				targets = []int{0}
 			}
+		case family == 4: // f0 -> f1 -> … -> f<depth> (each import conditional); f<depth> imports two leaves under different conditions
+			if f < chainDepth {
+				targets = []int{f + 1}
+			} else if f == chainDepth {
+				targets = []int{chainDepth + 1, chainDepth + 2}
+			}
 		default:
 			nimp := k(3)
 			if f == 0 && nimp == 0 {
@@ -507,7 +518,18 @@ func genImportCase(rt *rapid.T) ImportCase {
 			if k(9) >= 8 {
 				sb.WriteString(" supports(" + pick(importSupports) + ")")
 			}
-			if k(9) >= 7 {
+			if family == 4 {
+				// every import on the chain carries a condition that some devices satisfy together; the two
+				// siblings carry complementary conditions, so a leaf wrapped in its sibling's condition is visible
+				switch {
+				case f < chainDepth:
+					sb.WriteString(" " + []string{"screen", "screen and (min-width: 400px)", "(min-width: 400px)"}[f%3])
+				case target == chainDepth+1:
+					sb.WriteString(" (max-width: 599px)")
+				default:
+					sb.WriteString(" (min-width: 600px)")
+				}
+			} else if k(9) >= 7 {
 				sb.WriteString(" " + pick(importMedia))
 			}
 			sb.WriteString(";\n")
